@@ -174,6 +174,17 @@ Theorem C01_elf_roundtrip : forall l segs pgsz,
 Proof. exact elf_roundtrip. Qed.
 Print Assumptions C01_elf_roundtrip.
 
+(** the state that [C01_elf_roundtrip] opens ([expected]) reports, for a page
+    size 2^shift, the highest page frame that holds a byte of a LOAD segment's
+    memory range, plus one (with fix 37) *)
+Theorem C01_elf_max_pfn : forall l segs shift,
+  elf_wf l segs ->
+  (forall s, In s segs -> is_load s -> sg_phys s + sg_memsz s + 2^shift <= 2^64) ->
+  elf_open (read_files [encode_elf l segs]) 1 = Ok (expected l segs) /\
+  elf_max_pfn (expected l segs) shift = spec_elf_max_pfn segs (2^shift).
+Proof. exact elf_max_pfn_full. Qed.
+Print Assumptions C01_elf_max_pfn.
+
 (** the last-hit shortcut of [find_closest_*] never changes an answer *)
 Theorem C01_elf_shortcut_irrelevant : forall virt file st addr dist,
   arr_ok virt (arrays virt st) -> addr + dist <= 2^64 -> 0 < dist ->
